@@ -1404,6 +1404,417 @@ example : entryReplace [("root", "/data")] [] none "{root}/out" = .ok "/data/out
   entryReplace_known_variable [("root", "/data")] [] none [] "root".toList "/out".toList "/data"
     (by simp) (by decide) (by decide) (by decide) (by decide) (by decide)
 
+/-! ### `_replace` on the full grammar: any number of `{name}` / `{name:spec}` references, default for unknown variables -/
+
+/-- a text as `_replace` sees it: literal stretches without an opening brace, and references -/
+inductive Piece
+  | lit (t : List Char)
+  | ref (m : VarMatch)
+  deriving DecidableEq
+
+def Piece.text : Piece → List Char
+  | .lit t => t
+  | .ref m => m.expr
+
+def renderPieces (ps : List Piece) : List Char := (ps.map Piece.text).flatten
+
+/-- what stands between the braces of a reference: `name` or `name:spec` -/
+def innerOf (m : VarMatch) : List Char :=
+  match m.spec with
+  | none => m.name
+  | some sp => m.name ++ ':' :: sp
+
+theorem expr_inner (m : VarMatch) : m.expr = '{' :: ((innerOf m) ++ ['}']) := by
+  cases m with | mk name spec => cases spec <;> simp [VarMatch.expr, innerOf]
+
+/-- a reference the regular expression `\{(\w+)(:[^\{\}]*)?\}` matches: a non-empty name of word characters, a format
+spec without braces -/
+def RefOK (m : VarMatch) : Prop :=
+  m.name ≠ [] ∧ (∀ c ∈ m.name, isWord c = true) ∧ ∀ sp, m.spec = some sp → ∀ c ∈ sp, c ≠ '{' ∧ c ≠ '}'
+
+def PieceOK : Piece → Prop
+  | .lit t => '{' ∉ t
+  | .ref m => RefOK m
+
+def refsOf : List Piece → List VarMatch
+  | [] => []
+  | .lit _ :: t => refsOf t
+  | .ref m :: t => m :: refsOf t
+
+theorem isWord_open : isWord '{' = false := by decide
+theorem isWord_colon : isWord ':' = false := by decide
+
+theorem inner_no_brace (m : VarMatch) (h : RefOK m) : '{' ∉ (innerOf m) ∧ '}' ∉ (innerOf m) := by
+  obtain ⟨_, hw, hs⟩ := h
+  have hn1 : '{' ∉ m.name := fun hm => by have := hw _ hm; simp [isWord_open] at this
+  have hn2 : '}' ∉ m.name := fun hm => by have := hw _ hm; simp [isWord_close] at this
+  cases hsp : m.spec with
+  | none => simpa [innerOf, hsp] using ⟨hn1, hn2⟩
+  | some sp =>
+    have h1 : '{' ∉ sp := fun hm => (hs sp hsp _ hm).1 rfl
+    have h2 : '}' ∉ sp := fun hm => (hs sp hsp _ hm).2 rfl
+    simp only [innerOf, hsp, List.mem_append, List.mem_cons, not_or]
+    exact ⟨⟨hn1, by decide, h1⟩, ⟨hn2, by decide, h2⟩⟩
+
+/-- the regular expression matches a well-formed reference, with or without a spec -/
+theorem matchVar_ref (m : VarMatch) (h : RefOK m) (rest : List Char) :
+    matchVar ((innerOf m) ++ '}' :: rest) = some (m.name, m.spec, rest) := by
+  obtain ⟨hne, hw, hs⟩ := h
+  cases hsp : m.spec with
+  | none =>
+    simp only [innerOf, hsp]
+    exact matchVar_plain m.name rest hne hw
+  | some sp =>
+    have hsp' := hs sp hsp
+    simp only [innerOf, hsp, List.append_assoc, List.cons_append]
+    simp only [matchVar, takeWhile_append_stop isWord m.name ':' _ hw isWord_colon,
+      dropWhile_append_stop isWord m.name ':' _ hw isWord_colon]
+    have htw : (sp ++ '}' :: rest).takeWhile (fun c => c ≠ '{' && c ≠ '}') = sp :=
+      takeWhile_append_stop _ sp '}' rest (by intro c hc; simp [(hsp' c hc).1, (hsp' c hc).2]) (by simp)
+    have hdw : (sp ++ '}' :: rest).dropWhile (fun c => c ≠ '{' && c ≠ '}') = '}' :: rest :=
+      dropWhile_append_stop _ sp '}' rest (by intro c hc; simp [(hsp' c hc).1, (hsp' c hc).2]) (by simp)
+    rw [htw, hdw]
+    cases hn : m.name with
+    | nil => exact absurd hn hne
+    | cons a t => simp
+
+theorem findVars_skip_le (pre t : List Char) (n : Nat) (hpre : '{' ∉ pre) (hn : pre.length ≤ n) :
+    findVars n (pre ++ t) = findVars (n - pre.length) t := by
+  have : n = pre.length + (n - pre.length) := by omega
+  rw [this, findVars_skip pre t _ hpre]; simp
+
+/-- **the references `re.finditer` finds are the references of the text, in order** -/
+theorem findVars_pieces (ps : List Piece) (hok : ∀ p ∈ ps, PieceOK p) (n : Nat) (hn : (renderPieces ps).length ≤ n) :
+    findVars n (renderPieces ps) = refsOf ps := by
+  induction ps generalizing n with
+  | nil => cases n <;> simp [renderPieces, findVars, refsOf]
+  | cons p t ih =>
+    have hokt : ∀ q ∈ t, PieceOK q := fun q hq => hok q (List.mem_cons_of_mem _ hq)
+    have hr : renderPieces (p :: t) = p.text ++ renderPieces t := by simp [renderPieces]
+    rw [hr] at hn ⊢
+    cases p with
+    | lit x =>
+      have hx : '{' ∉ x := hok (.lit x) (by simp)
+      simp only [Piece.text, List.length_append] at hn ⊢
+      rw [findVars_skip_le x _ n hx (by omega), ih hokt _ (by omega)]
+      rfl
+    | ref m =>
+      have hm : RefOK m := hok (.ref m) (by simp)
+      simp only [Piece.text, expr_inner, List.length_append, List.length_cons] at hn ⊢
+      cases n with
+      | zero => simp at hn
+      | succ n =>
+        have : '{' :: ((innerOf m) ++ ['}']) ++ renderPieces t = '{' :: ((innerOf m) ++ '}' :: renderPieces t) := by simp
+        rw [this]
+        simp only [findVars, if_true, matchVar_ref m hm]
+        rw [ih hokt n (by simp at hn; omega)]
+        cases m; rfl
+
+/-! #### `str.replace` on such a text -/
+
+theorem replaceAll_skip (rest new t X : List Char) (k : Nat) (ht : '{' ∉ t) :
+    replaceAll ('{' :: rest) new (t.length + k) (t ++ X) = t ++ replaceAll ('{' :: rest) new k X := by
+  induction t with
+  | nil => simp
+  | cons c r ih =>
+    have hc : c ≠ '{' := by intro e; subst e; simp at ht
+    have hr : '{' ∉ r := fun h => ht (List.mem_cons_of_mem _ h)
+    have hpf : isPrefix ('{' :: rest) (c :: (r ++ X)) = false := by
+      simp only [isPrefix]; simp; intro e; exact absurd e.symm hc
+    have : (c :: r).length + k = (r.length + k) + 1 := by simp only [List.length_cons]; omega
+    rw [this]
+    show replaceAll ('{' :: rest) new (r.length + k + 1) (c :: (r ++ X)) = c :: (r ++ replaceAll ('{' :: rest) new k X)
+    simp only [replaceAll, hpf, Bool.false_eq_true, if_false]
+    rw [ih hr]
+
+/-- a brace-free text ending in the first closing brace is a prefix of another such text (followed by anything) only if
+the two are the same -/
+theorem isPrefix_closed (a b X : List Char) (ha : '}' ∉ a) (hb : '}' ∉ b)
+    (h : isPrefix (a ++ ['}']) (b ++ '}' :: X) = true) : a = b := by
+  induction a generalizing b with
+  | nil =>
+    cases b with
+    | nil => rfl
+    | cons c t =>
+      simp only [List.nil_append, List.cons_append, isPrefix, Bool.and_eq_true, decide_eq_true_eq] at h
+      exact absurd h.1.symm (by intro e; subst e; simp at hb)
+  | cons x a' ih =>
+    cases b with
+    | nil =>
+      simp only [List.cons_append, List.nil_append, isPrefix, Bool.and_eq_true, decide_eq_true_eq] at h
+      exact absurd h.1 (by intro e; subst e; simp at ha)
+    | cons c t =>
+      simp only [List.cons_append, isPrefix, Bool.and_eq_true, decide_eq_true_eq] at h
+      rw [h.1, ih t (fun hm => ha (List.mem_cons_of_mem _ hm)) (fun hm => hb (List.mem_cons_of_mem _ hm)) h.2]
+
+/-- replacing the text of one reference in a piece -/
+def substP (e new : List Char) : Piece → Piece
+  | .lit t => .lit t
+  | .ref m => if m.expr = e then .lit new else .ref m
+
+/-- **`text.replace(expr, new)` replaces exactly the references written like `expr`** -/
+theorem replaceAll_pieces (m0 : VarMatch) (h0 : RefOK m0) (new : List Char) (ps : List Piece)
+    (hok : ∀ p ∈ ps, PieceOK p) (n : Nat) (hn : (renderPieces ps).length ≤ n) :
+    replaceAll m0.expr new n (renderPieces ps) = renderPieces (ps.map (substP m0.expr new)) := by
+  induction ps generalizing n with
+  | nil => cases n <;> simp [renderPieces, replaceAll]
+  | cons p t ih =>
+    have hokt : ∀ q ∈ t, PieceOK q := fun q hq => hok q (List.mem_cons_of_mem _ hq)
+    have hr : ∀ q (l : List Piece), renderPieces (q :: l) = q.text ++ renderPieces l := by intro q l; simp [renderPieces]
+    rw [List.map_cons, hr, hr] at *
+    cases p with
+    | lit x =>
+      have hx : '{' ∉ x := hok (.lit x) (by simp)
+      simp only [Piece.text, substP, List.length_append] at hn ⊢
+      have : n = x.length + (n - x.length) := by omega
+      rw [this, expr_inner, replaceAll_skip _ _ _ _ _ hx, ← expr_inner, ih hokt _ (by omega)]
+    | ref m =>
+      have hm : RefOK m := hok (.ref m) (by simp)
+      simp only [Piece.text, substP] at hn ⊢
+      by_cases he : m.expr = m0.expr
+      · simp only [he, if_true, Piece.text]
+        rw [he] at hn
+        rw [expr_inner m0] at hn ⊢
+        cases n with
+        | zero => simp at hn
+        | succ n =>
+          have hp : isPrefix ('{' :: ((innerOf m0) ++ ['}'])) ('{' :: ((innerOf m0) ++ ['}']) ++ renderPieces t) = true :=
+            isPrefix_append _ _
+          show replaceAll ('{' :: ((innerOf m0) ++ ['}'])) new (n + 1) ('{' :: (((innerOf m0) ++ ['}']) ++ renderPieces t)) = _
+          have hp' : isPrefix ('{' :: ((innerOf m0) ++ ['}'])) ('{' :: (((innerOf m0) ++ ['}']) ++ renderPieces t)) = true := by
+            simpa using hp
+          simp only [replaceAll, hp', if_true]
+          have hd : ('{' :: (((innerOf m0) ++ ['}']) ++ renderPieces t)).drop ('{' :: ((innerOf m0) ++ ['}'])).length = renderPieces t := by
+            show (('{' :: ((innerOf m0) ++ ['}'])) ++ renderPieces t).drop _ = _
+            simp
+          rw [hd, ← expr_inner m0, ih hokt n (by simp only [List.length_append, List.length_cons] at hn; omega)]
+      · simp only [he, if_false, Piece.text]
+        rw [expr_inner m] at hn ⊢
+        rw [expr_inner m0]
+        cases n with
+        | zero => simp at hn
+        | succ n =>
+          have hpf : isPrefix ('{' :: ((innerOf m0) ++ ['}'])) ('{' :: (((innerOf m) ++ ['}']) ++ renderPieces t)) = false := by
+            cases hc : isPrefix ('{' :: ((innerOf m0) ++ ['}'])) ('{' :: (((innerOf m) ++ ['}']) ++ renderPieces t)) with
+            | false => rfl
+            | true =>
+              exfalso
+              simp only [isPrefix, decide_true, Bool.true_and] at hc
+              have hc' : isPrefix ((innerOf m0) ++ ['}']) ((innerOf m) ++ '}' :: renderPieces t) = true := by simpa using hc
+              have := isPrefix_closed (innerOf m0) (innerOf m) _ (inner_no_brace m0 h0).2 (inner_no_brace m hm).2 hc'
+              apply he
+              rw [expr_inner, expr_inner, this]
+          show replaceAll ('{' :: ((innerOf m0) ++ ['}'])) new (n + 1) ('{' :: (((innerOf m) ++ ['}']) ++ renderPieces t)) = _
+          simp only [replaceAll, hpf, Bool.false_eq_true, if_false]
+          have hb : '{' ∉ (innerOf m) ++ ['}'] := by
+            simp only [List.mem_append, List.mem_singleton, not_or]
+            exact ⟨(inner_no_brace m hm).1, by decide⟩
+          have hlen : n = ((innerOf m) ++ ['}']).length + (n - ((innerOf m) ++ ['}']).length) := by
+            simp only [List.length_append, List.length_cons] at hn ⊢; omega
+          rw [hlen, replaceAll_skip _ _ _ _ _ hb, ← expr_inner m0, ih hokt _ (by
+            simp only [List.length_append, List.length_cons] at hn ⊢; omega)]
+          simp
+
+/-! #### the loop over the references -/
+
+/-- one round of the loop of `_replace` -/
+def stepR (vars : List (String × String)) (dflt : Option String) (fuel : Nat)
+    (acc : Except RErr (List Char)) (m : VarMatch) : Except RErr (List Char) :=
+  match acc with
+  | .error e => .error e
+  | .ok cur =>
+    let repl : Except RErr (Option (List Char)) :=
+      match dget? vars (String.ofList m.name) with
+      | none => .ok (dflt.map String.toList)
+      | some r => (replaceVars vars dflt fuel r.toList).map some
+    match repl with
+    | .error e => .error e
+    | .ok none => .ok cur
+    | .ok (some r) =>
+      match formatStr m.spec r with
+      | none => .error .unsupportedSpec
+      | some txt => .ok (replaceAll m.expr txt cur.length cur)
+
+theorem replaceVars_eq (vars : List (String × String)) (dflt : Option String) (fuel : Nat) (s : List Char) :
+    replaceVars vars dflt (fuel + 1) s = (findVars s.length s).foldl (stepR vars dflt fuel) (.ok s) := rfl
+
+/-- the text a reference is formatted from: the value of the variable if it is known, else the default if there is one -/
+def targetOf (vars : List (String × String)) (dflt : Option String) (m : VarMatch) : Option (List Char) :=
+  match dget? vars (String.ofList m.name) with
+  | some r => some r.toList
+  | none => dflt.map String.toList
+
+/-- what a reference becomes: `format(value, spec)`, `format(default, spec)`, or nothing (it stays) -/
+def outOf (vars : List (String × String)) (dflt : Option String) (m : VarMatch) : Option (List Char) :=
+  (targetOf vars dflt m).bind (formatStr m.spec)
+
+def finalP (vars : List (String × String)) (dflt : Option String) : Piece → Piece
+  | .lit t => .lit t
+  | .ref m => match outOf vars dflt m with | some txt => .lit txt | none => .ref m
+
+/-- the flat case for one reference: the value of the variable has no opening brace (no nested reference), the spec is
+one `format` accepts for a text, and the formatted text has no opening brace -/
+def FlatRef (vars : List (String × String)) (dflt : Option String) (m : VarMatch) : Prop :=
+  RefOK m ∧ (∀ r, dget? vars (String.ofList m.name) = some r → '{' ∉ r.toList) ∧
+  ∀ t, targetOf vars dflt m = some t → ∃ txt, formatStr m.spec t = some txt ∧ '{' ∉ txt
+
+theorem stepR_flat (vars : List (String × String)) (dflt : Option String) (fuel : Nat) (m : VarMatch)
+    (h : FlatRef vars dflt m) (cur : List Char) :
+    stepR vars dflt (fuel + 1) (.ok cur) m =
+      .ok (match outOf vars dflt m with | some txt => replaceAll m.expr txt cur.length cur | none => cur) := by
+  obtain ⟨_, hv, hf⟩ := h
+  simp only [stepR, outOf, targetOf] at hf ⊢
+  cases hd : dget? vars (String.ofList m.name) with
+  | some r =>
+    obtain ⟨txt, ht, _⟩ := hf r.toList (by simp [hd])
+    simp [replace_no_braces vars dflt fuel r.toList (hv r hd), Except.map, ht]
+  | none =>
+    cases dflt with
+    | none => simp
+    | some d =>
+      obtain ⟨txt, ht, _⟩ := hf d.toList (by simp [hd])
+      simp [ht]
+
+theorem expr_inj (m m' : VarMatch) (h : RefOK m) (h' : RefOK m') (he : m.expr = m'.expr) : m = m' := by
+  rw [expr_inner, expr_inner] at he
+  have hi : innerOf m ++ ['}'] = innerOf m' ++ ['}'] := by simpa using he
+  have h1 := matchVar_ref m h []
+  have h2 := matchVar_ref m' h' []
+  rw [hi, h2] at h1
+  cases m; cases m'; simp at h1; simp [h1.1, h1.2]
+
+/-- the pieces while the loop runs: the references met so far have got their final form -/
+def partialP (vars : List (String × String)) (dflt : Option String) (done : List VarMatch) : Piece → Piece
+  | .lit t => .lit t
+  | .ref m => if m ∈ done then finalP vars dflt (.ref m) else .ref m
+
+theorem partialP_ok (vars : List (String × String)) (dflt : Option String) (done : List VarMatch) (p : Piece)
+    (hp : PieceOK p) (hflat : ∀ m, p = .ref m → FlatRef vars dflt m) : PieceOK (partialP vars dflt done p) := by
+  cases p with
+  | lit t => exact hp
+  | ref m =>
+    simp only [partialP]
+    split
+    · simp only [finalP]
+      cases ho : outOf vars dflt m with
+      | none => exact hp
+      | some txt =>
+        obtain ⟨_, _, hf⟩ := hflat m rfl
+        simp only [outOf] at ho
+        cases ht : targetOf vars dflt m with
+        | none => simp [ht] at ho
+        | some t =>
+          obtain ⟨txt', h1, h2⟩ := hf t ht
+          simp only [ht, Option.bind_some, h1, Option.some.injEq] at ho
+          subst ho; exact h2
+    · exact hp
+
+theorem partialP_step (vars : List (String × String)) (dflt : Option String) (done : List VarMatch) (m0 : VarMatch)
+    (h0 : RefOK m0) (p : Piece) (hp : PieceOK p) :
+    (match outOf vars dflt m0 with
+      | some txt => substP m0.expr txt (partialP vars dflt done p)
+      | none => partialP vars dflt done p) = partialP vars dflt (done ++ [m0]) p := by
+  cases p with
+  | lit t => cases outOf vars dflt m0 <;> rfl
+  | ref m =>
+    have hm : RefOK m := hp
+    by_cases hd : m ∈ done
+    · have hd' : m ∈ done ++ [m0] := List.mem_append_left _ hd
+      simp only [partialP, hd, hd', if_true, finalP]
+      cases ho0 : outOf vars dflt m0 with
+      | none => rfl
+      | some txt =>
+        cases ho : outOf vars dflt m with
+        | some t => rfl
+        | none =>
+          simp only [substP]
+          have : m.expr ≠ m0.expr := by
+            intro he; have := expr_inj m m0 hm h0 he; subst this; rw [ho] at ho0; cases ho0
+          simp [this]
+    · simp only [partialP, hd, if_false]
+      by_cases he : m = m0
+      · subst he
+        simp only [List.mem_append, List.mem_singleton, or_true, if_true, finalP]
+        cases outOf vars dflt m <;> simp [substP]
+      · have hd' : m ∉ done ++ [m0] := by simp [hd, he]
+        simp only [hd', if_false]
+        cases outOf vars dflt m0 with
+        | none => rfl
+        | some txt =>
+          have : m.expr ≠ m0.expr := fun hx => he (expr_inj m m0 hm h0 hx)
+          simp [substP, this]
+
+theorem foldl_stepR (vars : List (String × String)) (dflt : Option String) (fuel : Nat) (ps : List Piece)
+    (hok : ∀ p ∈ ps, PieceOK p) (hflat : ∀ m, Piece.ref m ∈ ps → FlatRef vars dflt m)
+    (L : List VarMatch) (hL : ∀ m ∈ L, FlatRef vars dflt m) (done : List VarMatch) :
+    L.foldl (stepR vars dflt (fuel + 1)) (.ok (renderPieces (ps.map (partialP vars dflt done)))) =
+      .ok (renderPieces (ps.map (partialP vars dflt (done ++ L)))) := by
+  induction L generalizing done with
+  | nil => simp
+  | cons m0 t ih =>
+    have h0 := hL m0 (by simp)
+    simp only [List.foldl_cons]
+    rw [stepR_flat vars dflt fuel m0 h0]
+    have hcur : ∀ p ∈ ps.map (partialP vars dflt done), PieceOK p := by
+      intro p hp
+      obtain ⟨q, hq, rfl⟩ := List.mem_map.1 hp
+      exact partialP_ok vars dflt done q (hok q hq) (fun m hm => hflat m (hm ▸ hq))
+    have hnext : (match outOf vars dflt m0 with
+        | some txt => replaceAll m0.expr txt (renderPieces (ps.map (partialP vars dflt done))).length
+            (renderPieces (ps.map (partialP vars dflt done)))
+        | none => renderPieces (ps.map (partialP vars dflt done))) =
+        renderPieces (ps.map (partialP vars dflt (done ++ [m0]))) := by
+      have hmap : ps.map (partialP vars dflt (done ++ [m0])) =
+          ps.map (fun p => match outOf vars dflt m0 with
+            | some txt => substP m0.expr txt (partialP vars dflt done p)
+            | none => partialP vars dflt done p) := by
+        apply List.map_congr_left
+        intro p hp
+        exact (partialP_step vars dflt done m0 h0.1 p (hok p hp)).symm
+      rw [hmap]
+      cases ho : outOf vars dflt m0 with
+      | none => rfl
+      | some txt =>
+        simp only
+        rw [replaceAll_pieces m0 h0.1 txt _ hcur _ (Nat.le_refl _), List.map_map]
+        rfl
+    rw [hnext]
+    have := ih (fun m hm => hL m (List.mem_cons_of_mem _ hm)) (done ++ [m0])
+    simpa [List.append_assoc] using this
+
+theorem mem_refsOf (ps : List Piece) (m : VarMatch) : m ∈ refsOf ps ↔ Piece.ref m ∈ ps := by
+  induction ps with
+  | nil => simp [refsOf]
+  | cons p t ih => cases p <;> simp [refsOf, ih]
+
+/-- **`_replace` on the whole grammar** (induction over the list of references `re.finditer` returns): a text made of
+brace-free stretches and any number of references `{name}` / `{name:spec}` — repeated ones included —, in the flat case
+(values of known variables without braces, specs `format` accepts): every reference to a known variable becomes
+`format(value, spec)`, every reference to an unknown variable becomes `format(default, spec)` when a default is given
+and stays exactly as it is when none is given, and the stretches in between are untouched -/
+theorem replace_all_references (vars : List (String × String)) (dflt : Option String) (fuel : Nat) (ps : List Piece)
+    (hok : ∀ p ∈ ps, PieceOK p) (hflat : ∀ m, Piece.ref m ∈ ps → FlatRef vars dflt m) :
+    replaceVars vars dflt (fuel + 2) (renderPieces ps) = .ok (renderPieces (ps.map (finalP vars dflt))) := by
+  rw [replaceVars_eq, findVars_pieces ps hok _ (Nat.le_refl _)]
+  have h0 : ps.map (partialP vars dflt []) = ps := by
+    rw [List.map_congr_left (g := id)]; simp
+    intro p _; cases p <;> simp [partialP]
+  have := foldl_stepR vars dflt fuel ps hok hflat (refsOf ps) (fun m hm => hflat m ((mem_refsOf ps m).1 hm)) []
+  rw [h0] at this
+  rw [this]
+  congr 2
+  apply List.map_congr_left
+  intro p hp
+  cases p with
+  | lit t => rfl
+  | ref m => simp [partialP, (mem_refsOf ps m).2 hp]
+
+/-- unknown variables without a default: the text comes back unchanged wherever it has no known variable — and with
+`replace_all_references` the known ones are replaced around them -/
+example : replaceVars [("year", "2019"), ("doy", "7")] none 5 "/data/{year}/{doy:>3}_{year}_{unknown}.txt".toList =
+    .ok "/data/2019/  7_2019_{unknown}.txt".toList := by decide +kernel
+example : replaceVars [("year", "2019")] (some "*") 5 "{year}/{sta}{sta:^5}".toList = .ok "2019/*  *  ".toList := by decide +kernel
+
 /-! ### `update_from_file` with `DEFAULT`, `__replace__`, `__vars__` -/
 
 theorem takeOk_map_ok {ε α} (l : List α) : takeOk (l.map (Except.ok (ε := ε))) = (l, none) := by
@@ -2179,6 +2590,159 @@ example : asEnum Generated.ConfigTables.enumTable "gnss_freq_G" "f1" = .ok "L1" 
     asEnum Generated.ConfigTables.enumTable "gnss_freq_G" "l1" = .error .value ∧
     asEnum Generated.ConfigTables.enumTable "nope" "L1" = .error .unknownEnum := by decide +kernel
 
+section OneLine
+open Midgard.Proofs.ConfigText
+
+/-! ### Text form, entry level: an entry that fits on one line keeps its runs of blanks -/
+
+/-- a value as words with arbitrary (non-empty) runs of blanks between them -/
+def spacedValue (w1 : List Char) (ps : List Pair) : List Char := (flatAlt w1 ps).flatten
+
+/-- the chunks of the text `entry_as_str` wraps for such a value -/
+def entryPairs (kw : Nat) (key w1 : List Char) (ps : List Pair) : List Pair :=
+  (padOf kw key, ['=']) :: ([' '], w1) :: ps
+
+theorem entryText_spaced (kw : Nat) (key w1 : List Char) (ps : List Pair) :
+    entryText kw key (spacedValue w1 ps) = (flatAlt key (entryPairs kw key w1 ps)).flatten := by
+  simp [entryText, spacedValue, flatAlt, entryPairs, ljust, eq_lit, padOf, List.append_assoc]
+
+theorem takeFit_all (avail : Nat) (l cur : List (List Char)) (len : Nat)
+    (h : len + (l.map List.length).sum ≤ avail) : takeFit avail cur len l = (cur ++ l, []) := by
+  induction l generalizing cur len with
+  | nil => simp [takeFit]
+  | cons ch r ih =>
+    simp only [List.map_cons, List.sum_cons] at h
+    have h1 : len + ch.length ≤ avail := by omega
+    simp only [takeFit, h1, if_true]
+    rw [ih (cur ++ [ch]) (len + ch.length) (by omega)]
+    simp
+
+theorem length_flatten_eq (l : List (List Char)) : l.flatten.length = (l.map List.length).sum := by
+  induction l with
+  | nil => rfl
+  | cons a t ih => simp [ih]
+
+theorem flatAlt_length (x0 : List Char) (ps : List Pair) : (flatAlt x0 ps).length = 1 + 2 * ps.length := by
+  induction ps with
+  | nil => simp [flatAlt]
+  | cons p t ih => simp only [flatAlt, List.flatMap_cons, List.length_cons, List.length_append] at ih ⊢; simp; omega
+
+/-- **written on one line**: when key column, `=` and value fit the width, `console.fill` leaves the text as it is — every
+run of blanks inside the value is kept -/
+theorem fill_one_line (w hang : Nat) (x0 : List Char) (ps : List Pair) (hx : IsWord x0) (hps : PairsOK ps)
+    (hctl : NoCtl (flatAlt x0 ps).flatten) (hfit : (flatAlt x0 ps).flatten.length ≤ w) :
+    fill w hang (flatAlt x0 ps).flatten = [(flatAlt x0 ps).flatten] := by
+  obtain ⟨gs, hg, hfill, h0⟩ := fill_grouping w hang x0 ps hx hps hctl
+  have hls : (lineSplit w (flatAlt x0 ps)).1 = flatAlt x0 ps := by
+    have htf := takeFit_all w (flatAlt x0 ps) [] 0 (by rw [← length_flatten_eq]; omega)
+    simp only [List.nil_append] at htf
+    simp only [lineSplit, htf]
+    cases hfa : flatAlt x0 ps with
+    | nil => simp [flatAlt] at hfa
+    | cons a t => rfl
+  rw [hfill]
+  cases hg with
+  | last => simp [renderLines]
+  | cons _ a s x b gs' hg' =>
+    exfalso
+    have := h0 (x0, a) gs' rfl
+    rw [hls, dropTrailingSpace_flatAlt x0 _ hx hps] at this
+    have hl := congrArg List.length this
+    simp only [flatAlt_length, List.length_append, List.length_cons] at hl
+    omega
+
+/-- **`entry_as_str` of an entry without metadata that fits on one line** is that one line, the value unchanged -/
+theorem entryLines_one_line (w kw : Nat) (k : String) (w1 : List Char) (ps : List Pair) (src : String)
+    (hkey : IsWord k.toList) (hw1 : IsWord w1) (hps : PairsOK ps)
+    (hctl : NoCtl (entryText kw k.toList (spacedValue w1 ps)))
+    (hfit : (entryText kw k.toList (spacedValue w1 ps)).length ≤ w) :
+    entryLines w kw k ⟨String.ofList (spacedValue w1 ps), src, []⟩ = [entryText kw k.toList (spacedValue w1 ps)] := by
+  have hP : PairsOK (entryPairs kw k.toList w1 ps) := by
+    intro p hp
+    simp only [entryPairs, List.mem_cons] at hp
+    rcases hp with rfl | rfl | hp
+    · exact ⟨isSpaces_pad kw k.toList, isWord_eq⟩
+    · exact ⟨isSpaces_single, hw1⟩
+    · exact hps p hp
+  have h := fill_one_line w (kw + 3) k.toList (entryPairs kw k.toList w1 ps) hkey hP
+    (by rw [← entryText_spaced]; exact hctl) (by rw [← entryText_spaced]; exact hfit)
+  rw [← entryText_spaced] at h
+  simpa [entryLines, entryText] using h
+
+/-- **read from one line**: the reader returns the key and the value exactly as written — blank runs, `#`, `;`, `=`, `:`
+anywhere in the value (a comment character starts a comment only at the start of a line, the first `=` of the line ends the
+key) -/
+theorem readLine_one_line (lower : Bool) (p : PState) (n : String) (os : List RawOpt) (kw : Nat)
+    (key v : List Char) (hcur : p.cur = some (n, os)) (hkey : KeyOK lower key)
+    (hvh : ∀ c, v.head? = some c → isBlank c = false) (hvl : ∀ c, v.getLast? = some c → isBlank c = false) (hvne : v ≠ [])
+    (hnew : key ∉ (os ++ p.opt.toList).map (·.key)) :
+    readLine lower p (key ++ padOf kw key ++ '=' :: ' ' :: v) =
+      .ok { done := p.done, cur := some (n, os ++ p.opt.toList), opt := some ⟨key, some [v]⟩, indent := 0 } := by
+  obtain ⟨hkne, hkc, hklow, hk1, hk2, hk3⟩ := hkey
+  have hkhead : ∀ c, key.head? = some c → isBlank c = false := fun c hc => (hkc c (List.mem_of_head? hc)).1
+  have hhead : (key ++ padOf kw key ++ '=' :: ' ' :: v).head? = key.head? := by
+    cases key with
+    | nil => exact absurd rfl hkne
+    | cons c t => simp
+  have hne : key ++ padOf kw key ++ '=' :: ' ' :: v ≠ [] := by simp
+  have hlast : ∀ c, (key ++ padOf kw key ++ '=' :: ' ' :: v).getLast? = some c → isBlank c = false := by
+    intro c hc
+    rw [show key ++ padOf kw key ++ '=' :: ' ' :: v = (key ++ padOf kw key ++ ['=', ' ']) ++ v by simp,
+      getLast?_append_ne_nil _ _ hvne] at hc
+    exact hvl c hc
+  rw [readLine_header lower p _ hne (by rw [hhead]; exact hkhead) hlast (by rw [hhead]; exact hk2)
+    (by rw [hhead]; exact hk3)]
+  have hnb : sectionName? (key ++ padOf kw key ++ '=' :: ' ' :: v) = none :=
+    sectionName?_none _ (by rw [hhead]; exact hk1)
+  simp only [headerLine, hnb, optionLine, closeOpt_eq p n os hcur]
+  have hpad : ∀ c ∈ padOf kw key, isBlank c = true := fun c hc => by
+    rw [(isSpaces_pad kw key).2 c hc]; exact isBlank_space
+  have hnoeq : '=' ∉ key ++ padOf kw key := by
+    intro hm
+    rcases List.mem_append.1 hm with h | h
+    · exact (hkc '=' h).2 rfl
+    · have := (isSpaces_pad kw key).2 '=' h; simp at this
+  have hpart : partitionAt '=' (key ++ padOf kw key ++ '=' :: ' ' :: v) = (key ++ padOf kw key, true, ' ' :: v) :=
+    partitionAt_append '=' _ _ hnoeq
+  have hklast : ∀ c, key.getLast? = some c → isBlank c = false := fun c hc => (hkc c (List.mem_of_getLast? hc)).1
+  have hrs : rstripBlanks (key ++ padOf kw key) = key := by
+    rw [rstripBlanks_append_blanks _ _ hpad, rstripBlanks_id key hklast]
+  have hk' : (if lower = true then (rstripBlanks (key ++ padOf kw key)).map lowerChar
+      else rstripBlanks (key ++ padOf kw key)) = key := by
+    rw [hrs]; cases lower <;> simp_all
+  have hcont : ((os ++ p.opt.toList).map (·.key)).contains key = false := by simpa using hnew
+  have hke : key.isEmpty = false := by cases key <;> simp_all
+  have hsv : stripBlanks (' ' :: v) = v := by
+    have : (' ' :: v) = [' '] ++ v := rfl
+    rw [this, stripBlanks_blanks_append _ _ (by intro c hc; simp at hc; subst hc; exact isBlank_space),
+      stripBlanks_id v hvh hvl]
+  simp only [hpart, hk', hke, hcont, Bool.false_eq_true, if_false, if_true, hsv]
+
+/-- the value the reader hands on for a one-line option is the text of that line -/
+theorem joinValue_one_line (v : List Char) (hvh : ∀ c, v.head? = some c → isBlank c = false)
+    (hvl : ∀ c, v.getLast? = some c → isBlank c = false) (hnl : '\n' ∉ v) : joinValue [v] = String.ofList v := by
+  have hmap : v.map (fun c => if c = '\n' then ' ' else c) = v := by
+    rw [List.map_congr_left (g := id)]; simp
+    intro c hc; have : c ≠ '\n' := fun e => hnl (e ▸ hc); simp [this]
+  simp [joinValue, joinLines, rstripBlanks_id v hvl, hmap, stripBlanks_id v hvh hvl]
+
+/-- a value with runs of two and three blanks, a `#`, a `;` and a `=` inside, on one line: written as it is, read as it is
+(the document-level theorem `text_roundtrip` asks for single blanks because a run that meets a line break is read back as
+one blank) -/
+example : let secs : Sections := [("s1", [("k1", ⟨"a  b   #c ;d = e", "x", []⟩)])]
+    (match (Cfg.new "r").updateFromText (asStr 80 30 secs ++ "\n") "x" true false with
+      | .ok (c, none) => c.sections == secs
+      | _ => false) = true ∧ WfText true 80 30 secs = false := by decide +kernel
+
+/-- … and the same value at a width where the line breaks inside a run of blanks: the run comes back as one blank, which
+is why `WfText` asks for single blanks -/
+example : let secs : Sections := [("s1", [("k1", ⟨"aaaa   bbbb", "x", []⟩)])]
+    (match (Cfg.new "r").updateFromText (asStr 40 30 secs ++ "\n") "x" true false with
+      | .ok (c, none) => c.sections == [("s1", [("k1", ⟨"aaaa bbbb", "x", []⟩)])]
+      | _ => false) = true := by decide +kernel
+
+end OneLine
+
 end Midgard.Props.C19
 
 #print axioms Midgard.Props.C19.bool_spellings
@@ -2339,3 +2903,29 @@ end Midgard.Props.C19
 #print axioms Midgard.Props.C19.asPath_no_tilde
 #print axioms Midgard.Props.C19.expandUser_home
 #print axioms Midgard.Props.C19.asEnum_spec
+#print axioms Midgard.Props.C19.expr_inner
+#print axioms Midgard.Props.C19.isWord_open
+#print axioms Midgard.Props.C19.isWord_colon
+#print axioms Midgard.Props.C19.inner_no_brace
+#print axioms Midgard.Props.C19.matchVar_ref
+#print axioms Midgard.Props.C19.findVars_skip_le
+#print axioms Midgard.Props.C19.findVars_pieces
+#print axioms Midgard.Props.C19.replaceAll_skip
+#print axioms Midgard.Props.C19.isPrefix_closed
+#print axioms Midgard.Props.C19.replaceAll_pieces
+#print axioms Midgard.Props.C19.replaceVars_eq
+#print axioms Midgard.Props.C19.stepR_flat
+#print axioms Midgard.Props.C19.expr_inj
+#print axioms Midgard.Props.C19.partialP_ok
+#print axioms Midgard.Props.C19.partialP_step
+#print axioms Midgard.Props.C19.foldl_stepR
+#print axioms Midgard.Props.C19.mem_refsOf
+#print axioms Midgard.Props.C19.replace_all_references
+#print axioms Midgard.Props.C19.entryText_spaced
+#print axioms Midgard.Props.C19.takeFit_all
+#print axioms Midgard.Props.C19.length_flatten_eq
+#print axioms Midgard.Props.C19.flatAlt_length
+#print axioms Midgard.Props.C19.fill_one_line
+#print axioms Midgard.Props.C19.entryLines_one_line
+#print axioms Midgard.Props.C19.readLine_one_line
+#print axioms Midgard.Props.C19.joinValue_one_line
